@@ -221,7 +221,19 @@ class _NonrecursivePickler(dill.Pickler):
                         self.lazywrites.extend(lws)
                         break
                 elif isinstance(lw, _LazyMemo):
-                    self.realmemoize(lw.obj)
+                    if id(lw.obj) in self.memo:
+                        # the object is recursive: it was saved (and memoized)
+                        # again while its own contents were being written --
+                        # a frozenset, or under protocols < 4 a set, of
+                        # objects that refer back to it.  the stock pickler
+                        # checks for this after saving the contents; here the
+                        # contents are only queued at that time, so do it now:
+                        # drop the duplicate just built and fetch the first.
+                        self.realwrite(
+                            pickle.POP + self.get(self.memo[id(lw.obj)][0])
+                        )
+                    else:
+                        self.realmemoize(lw.obj)
                 elif isinstance(lw, _LazyTupleEnd):
                     self._finish_tuple(lw.obj)
                 else:
